@@ -20,6 +20,7 @@
 (*                                   get (operator())                      *)
 (*   SU  Susceptibility(QA, QA)      prepare, compute (auto-prepares), get  *)
 (*   EA  EnsembleAverage(QA)         prepare (computes the result), get     *)
+(*   GF, SU, EA additionally: copy (copy constructor, compared, destroyed)  *)
 (*   V   Vertex4(X, GF x 4)          compute, get                           *)
 (*                                                                         *)
 (* Definition level: Deps -- the documented order (README, tutorial,        *)
@@ -33,7 +34,8 @@
 EXTENDS Naturals, Sequences, FiniteSets, TLC
 
 Objs == {"S", "H", "DM", "CX", "C", "QA", "OPS", "GF", "X", "SU", "EA", "V"}
-OpNames == {"prepare", "compute", "get"}
+OpNames == {"prepare", "compute", "get", "copy"}
+Copyable == {"GF", "SU", "EA"}                 \* classes with a user-visible copy constructor (deep copy of the parts)
 Con == 0
 Pre == 1
 Com == 2
@@ -85,6 +87,7 @@ Eff(s, o, op) ==
           ELSE Throw(s))
     [] op = "get" ->
          (IF s[o] = Final[o] THEN NoOp(s, "value") ELSE Throw(s))
+    [] op = "copy" -> NoOp(s, "value")          \* the copy equals the original at any status; destroying it leaves the original intact
 
 \* ---- which calls are behaviours ------------------------------------------------------------------
 \* the documented workflow: dependencies are finished, own predecessor step done (or done implicitly)
@@ -94,6 +97,7 @@ Documented(s, o, op) ==
                          /\ \/ s[o] >= Pre
                             \/ o \in (AutoPrepare \cup {"S", "V"}) /\ Ready(s, o)
     [] op = "get" -> s[o] = Final[o]
+    [] op = "copy" -> o \in Copyable
 \* calls out of order that the code rejects with exStatusMismatch and that leave everything as it was
 Guarded(s, o, op) ==
   CASE op = "prepare" -> /\ s[o] = Con
@@ -103,6 +107,7 @@ Guarded(s, o, op) ==
     [] op = "get" -> \/ o \in ThrowingGet /\ s[o] = Con
                      \/ o = "DM" /\ s[o] = Pre
                      \/ o = "H" /\ s[o] = Pre                               \* HamiltonianPart guard; at Constructed there are no parts
+    [] op = "copy" -> FALSE
 
 Init == /\ st = [o \in Objs |-> Con]
         /\ last = [obj |-> "", op |-> "", out |-> "", ret |-> "", changed |-> {}]
